@@ -271,7 +271,9 @@ def pipeline_verdict(recv_ty, sink_ty):
         else:
             break
     src_ok = t.startswith(ORDERED_SOURCES)
-    sink_ok = sink_ty.startswith("std::vec::Vec<") or sink_ty.startswith("std::result::Result<std::vec::Vec<")
+    # (rayon's `String: FromParallelIterator<String>` concatenates the pieces in input order, like Vec + concat)
+    sink_ok = sink_ty.startswith("std::vec::Vec<") or sink_ty.startswith("std::result::Result<std::vec::Vec<") \
+        or sink_ty in ("std::string::String", "alloc::string::String")
     bad = None
     if not src_ok:
         bad = "source/adaptor `%s…` is not an indexed order-preserving rayon producer" % t[:60]
@@ -956,6 +958,24 @@ def dep(ctx, prop, tag):
 
 # --------------------------------------------------------------------------- one iteration of an iterator's main loop
 
+def is_readline_control(x):
+    """`match r.read_line(&mut line) { Ok(0) | Err(_) => break, Ok(_) => {} }` (or its if-let spellings): the loop's
+    end-of-input test, not a filter on lines"""
+    if x.get("k") not in ("match", "if"):
+        return False
+    head = x.get("e") if x.get("k") == "match" else x.get("cond")
+    if not any(y.get("k") == "mcall" and cname(y).split("::")[-1] == "read_line" for y in walk(head or {})):
+        return False
+    bodies = [a["body"] for a in x.get("arms", [])] if x.get("k") == "match" else [x.get("then"), x.get("else")]
+    for b in bodies:
+        if b is None:
+            continue
+        inner = [y for y in walk(b) if y.get("k") not in ("block", "semi", "tup", "lit")]
+        if any(y.get("k") != "break" for y in inner):
+            return False
+    return True
+
+
 def iteration_node(fv):
     """Node whose paths are the paths of ONE iteration of next()'s main loop, including the exhaustion
     decision.  `loop { if done { return None } .. }` -> the loop body;  `while !done { .. } tail` ->
@@ -963,7 +983,13 @@ def iteration_node(fv):
     loop = next((n for n in fv.nodes if n.get("k") in ("loop", "while")), None)
     if loop is None:
         return None, None
-    if loop.get("k") == "loop":
+    wl_if = None
+    if loop.get("k") == "loop" and loop.get("from_while_let"):
+        b_ = loop.get("body") or {}
+        wl_if = b_.get("expr") if b_.get("k") == "block" and not b_.get("stmts") else None
+        if not (isinstance(wl_if, dict) and wl_if.get("k") == "if"):
+            wl_if = None
+    if loop.get("k") == "loop" and wl_if is None:
         return loop["body"], loop
     # statements after the while in the enclosing block form the exhaustion exit
     blk = fv.parent.get(id(loop))
@@ -982,6 +1008,9 @@ def iteration_node(fv):
             tail_expr = None
     if tail_expr is not None and tail_expr.get("k") != "ret":
         tail_expr = {"k": "ret", "e": tail_expr, "sp": tail_expr.get("sp", loop.get("sp")), "ty": "!"}
+    if wl_if is not None:      # `while let P = e { body } tail`: the same, with the pattern test as the loop condition
+        return {"k": "if", "cond": wl_if["cond"], "then": wl_if["then"], "sp": loop.get("sp"),
+                "else": {"k": "block", "stmts": list(tail_stmts), "expr": tail_expr, "sp": loop.get("sp")}}, loop
     synth = {"k": "if", "cond": loop["cond"], "then": loop["body"], "sp": loop.get("sp"),
              "else": {"k": "block", "stmts": list(tail_stmts), "expr": tail_expr, "sp": loop.get("sp")}}
     return synth, loop
